@@ -389,7 +389,7 @@ class Interp:
             cands, keysets = [], []
             for b in balts:
                 if isinstance(b, dict):
-                    keysets.append(sorted(map(repr, b.keys()))[:16])
+                    keysets.append(sorted(map(repr, b.keys()))[:40])
                     # numeric keys hash alike (d[2.0] is d[2], d[True] is d[1])
                     cands += [v for k, v in b.items() if kind_of(k) in kk or "obj" in kk or (kind_of(k) in NUM and kk & NUM)]
                 elif isinstance(b, (list, tuple)):
@@ -398,7 +398,7 @@ class Interp:
                     cands += list(b.flat[:MAX_ALTS + 1])
                     if b.size > MAX_ALTS:
                         return Abs({kind_of(b.flat[0])}, base.deps | key.deps)
-            self.E("dyn-key", n, ast.unparse(n), keysets, sorted(kk), guards=g)
+            self.E("dyn-key", n, ast.unparse(n), keysets, sorted(kk), ast.unparse(sl), guards=g)
             if not cands:
                 self.E("param-missing", n, ast.unparse(n), f"<{'/'.join(sorted(kk))} key>", "no key of that kind", keysets, guards=g)
                 return Abs({"obj"}, base.deps | key.deps)
@@ -449,6 +449,8 @@ class Interp:
             if ok and out:
                 return mk_oneof(out, deps)
         ka, kb = kinds(a), kinds(b)
+        if "none" in ka or "none" in kb:
+            self.E("none-arith", n, ast.unparse(n), guards=g)
         if ka <= {"seq", "array"} or kb <= {"seq", "array"}:
             return Abs({"seq"}, deps)
         return Abs(arith_kinds(op, ka, kb, b), deps)
@@ -707,7 +709,7 @@ class Interp:
                 # dynamic key with default
                 k = args[0]
                 cands = list(b.v.values()) + ([args[1].v] if len(args) > 1 and isinstance(args[1], Conc) else [None])
-                self.E("dyn-key", n, ast.unparse(n), [sorted(map(repr, b.v))[:16]], sorted(kinds(k)), guards=g)
+                self.E("dyn-key", n, ast.unparse(n), [sorted(map(repr, b.v))[:16]], sorted(kinds(k)), ast.unparse(n.args[0]) + " (get)", guards=g)
                 return mk_oneof(cands, deps | b.deps)
             if fname in ("numpy.searchsorted", "np.searchsorted"):
                 if allc:
